@@ -11,7 +11,7 @@ use std::io;
 use std::os::unix::io::RawFd;
 use std::panic::{catch_unwind, AssertUnwindSafe};
 use std::time::Duration;
-use std::sync::Arc;
+use std::sync::{Arc, Mutex};
 
 use fbrh::prng::Prng;
 use fbrh::srvgen;
@@ -1019,6 +1019,72 @@ fn run_one(out: &mut Out, fsk: &str, nod: bool, srv_mode: bool, dir: &DirInfo, p
     out.case(&line, &o);
 }
 
+/// Model-free probe for "on one handle or several ... in any way of resuming": several threads
+/// resume READDIR on ONE handle, each from the offset of some previously returned entry, with no
+/// scheduling imposed (the forced `pp~` interleaving parks a request inside its entry callback;
+/// this one lets the requests race anywhere).  Every reply must begin with the successor of the
+/// offset it resumed from and continue in directory order; an empty reply is only allowed at the
+/// end.  Probabilistic: finding nothing proves nothing, finding something is a failing history.
+fn race_probe(out: &mut Out, dir: &DirInfo, threads: usize, iters: usize, seed: u64) {
+    let fs = Arc::new(pt_new(&dir.path, false, true));
+    fs.init(capable(false)).unwrap();
+    let ctx = Context::default();
+    let h: u64 = match fs.opendir(&ctx, 1, libc::O_RDONLY as u32) {
+        Ok((Some(h), _)) => h,
+        _ => return,
+    };
+    let order: Arc<Vec<(Vec<u8>, u64)>> = Arc::new(dir.listing.iter().map(|e| (e.name.clone(), e.off)).collect());
+    let needs: Arc<Vec<usize>> = Arc::new((0..=order.len()).map(|i| next_need(dir, if i == 0 { 0 } else { order[i - 1].1 }, false)).collect());
+    let bad: Arc<Mutex<Vec<String>>> = Arc::new(Mutex::new(Vec::new()));
+    let nbad = Arc::new(std::sync::atomic::AtomicU64::new(0));
+    let mut joins = vec![];
+    for t in 0..threads {
+        let (fs, order, needs, bad, nbad) = (fs.clone(), order.clone(), needs.clone(), bad.clone(), nbad.clone());
+        joins.push(std::thread::spawn(move || {
+            let mut r = Prng::new(seed ^ (0x9e37 * (t as u64 + 1)));
+            for _ in 0..iters {
+                let i = r.below(order.len() as u64 + 1) as usize;
+                let off = if i == 0 { 0 } else { order[i - 1].1 };
+                let size = (needs[i] + *r.pick(&[0usize, 40, 200, 600])) as u32;
+                let want: Vec<&(Vec<u8>, u64)> = order[i..].iter().filter(|e| !is_dot(&e.0)).collect();
+                let what = match api_read(&*fs, 1, h, false, size, off, None) {
+                    Rd::Ok(es, _) => {
+                        if es.is_empty() && !want.is_empty() {
+                            Some(format!("empty reply although {} entries follow", want.len()))
+                        } else {
+                            es.iter().zip(want.iter()).position(|(g, w)| g.name != w.0 || g.off != w.1).map(|k| {
+                                format!("entry {} of the reply is {:?}@{} but the directory continues with {:?}@{}",
+                                        k, String::from_utf8_lossy(&es[k].name), es[k].off, String::from_utf8_lossy(&want[k].0), want[k].1)
+                            })
+                        }
+                    }
+                    Rd::Err(e) => Some(format!("errno {}", e)),
+                    Rd::Panic => Some("panic".into()),
+                };
+                if let Some(w) = what {
+                    if nbad.fetch_add(1, std::sync::atomic::Ordering::Relaxed) < 3 {
+                        bad.lock().unwrap().push(format!("READDIR(handle, size={}, offset={}): {}", size, off, w));
+                    }
+                }
+            }
+        }));
+    }
+    for j in joins {
+        let _ = j.join();
+    }
+    let _ = fs.releasedir(&ctx, 1, 0, h);
+    out.stat("probe:same-handle-race");
+    let n = nbad.load(std::sync::atomic::Ordering::Relaxed);
+    if n > 0 {
+        let line = format!("race dn={} threads={} iters={} seed={}", dir.path.rsplit('/').next().unwrap_or(""), threads, iters, seed);
+        let v = serde_json::json!({"prop": "C16", "key": "C16:concurrent-same-handle:wrong-successor", "case": line,
+            "what": format!("{} of {} racing READDIRs on one handle answered wrongly (probabilistic replay); first: {}", n, threads * iters, bad.lock().unwrap().join(" | "))});
+        use std::io::Write;
+        writeln!(out.oracle, "{}", v).unwrap();
+        out.n_oracle += 1;
+    }
+}
+
 // ------------------------------------------------------------------ unit cases for the byte helpers
 
 fn enc(name: &[u8], ino: u64, off: u64, ty: u8, reclen: u16) -> Vec<u8> {
@@ -1168,6 +1234,14 @@ fn main() {
             if line.trim().is_empty() {
                 continue;
             }
+            if line.starts_with("race ") {
+                let kv: HashMap<&str, &str> = line.split(' ').filter_map(|t| t.split_once('=')).collect();
+                let g = |k: &str, d: u64| kv.get(k).and_then(|s| s.parse().ok()).unwrap_or(d);
+                if let Some(d) = dirs.iter().find(|d| d.path.rsplit('/').next() == kv.get("dn").copied()) {
+                    race_probe(&mut out, d, g("threads", 4) as usize, g("iters", 20000) as usize, g("seed", 1));
+                }
+                continue;
+            }
             if line.starts_with("u=") {
                 let o = unit_exec(line);
                 unit_oracle(&mut out, line, &o);
@@ -1214,6 +1288,10 @@ fn main() {
         let d = &dirs[5 + (i as usize) % 3];
         run_one(&mut out, fsk, nod, srv_mode, d, None, sock, Some((&mut r, 12000)), None);
     }
+    // racing READDIRs on one handle (model-free, probabilistic)
+    let (rt, ri) = if thorough { (8usize, 60000usize) } else { (6, 8000) };
+    race_probe(&mut out, &dirs[3], rt, ri, seed);
+    race_probe(&mut out, &dirs[4], rt, ri, seed ^ 0x55);
     for _ in 0..nunit {
         let line = unit_case(&mut r);
         let o = unit_exec(&line);
